@@ -26,7 +26,8 @@ func init() {
 			"thorough: 3-participant scenarios exhaustively (sharded by schedule prefix). On fs.Mem/CrashFS (no internal steps) the same scenarios run at call " +
 			"granularity. Session chains: all 32 clean/unclean sequences of 5 sessions per file system: an unclean end (directory copied while open) must be " +
 			"followed by recovery, a clean Close by none; a competing Open while a handle is open must fail with 'locked' and leave the directory listing " +
-			"(names, sizes, bytes) unchanged. evaluations = schedules executed + sessions; distinct_nontrivial = distinct schedule choice strings with at least " +
+			"(names, sizes, bytes) unchanged; an unclean directory whose next Open fails at any one of its file-system calls (fault injection, CrashFS) must still be " +
+			"recovered by the next successful Open. evaluations = schedules executed + sessions; distinct_nontrivial = distinct schedule choice strings with at least " +
 			"one contended step + distinct (chain, fs).",
 		Assumptions: []string{
 			"flock conflicts between open file descriptions inside one process exactly as between processes (verified on this kernel in the design phase)",
@@ -40,7 +41,7 @@ func init() {
 			return 24 + 8
 		},
 		Run:     runC13,
-		Require: []string{"schedules", "schedules_3p", "schedules_2p", "locked_errors", "contended_schedules", "retries_seen", "chains", "chain_recoveries", "chain_clean_opens", "competing_open_rejected"},
+		Require: []string{"schedules", "schedules_3p", "schedules_2p", "locked_errors", "contended_schedules", "retries_seen", "chains", "opens_failed_by_fault", "chain_recoveries", "chain_clean_opens", "competing_open_rejected"},
 		Exhaustive: func(tier string, stats map[string]int64) bool {
 			return tier == "thorough" && stats["subtrees_truncated"] == 0
 		},
@@ -388,9 +389,86 @@ func listing(env *core.Env) string {
 	return sb.String()
 }
 
+// c13FailedOpens: an unclean directory, then an Open that fails for a reason other than the lock (every file-system
+// call of that Open is failed once), the process ends, and the next Open - the next successful one - must
+// still detect the unclean shutdown, recover and show the contents.
+func c13FailedOpens(c *core.Ctx) {
+	cfg := core.Config{MaxSeg: 4096}
+	env := core.NewEnv(core.FSCrash)
+	db, err := env.Open(cfg)
+	if err != nil {
+		c.Violation("chain-open-error", err.Error(), nil)
+		return
+	}
+	ref := core.State{}
+	for i := 0; i < 200; i++ {
+		k, v := fmt.Sprintf("k%d", i%120), fmt.Sprintf("v%d", i)
+		if err := db.Put([]byte(k), []byte(v)); err != nil {
+			c.Violation("chain-put", err.Error(), nil)
+			return
+		}
+		ref[k] = v
+	}
+	unclean := env.Crash.Snapshot() // the process dies here: lock file present
+	for k := 0; k < 300; k++ {
+		e1 := core.CrashEnvFromImage(unclean)
+		ffs := core.NewFaultFS(e1.FS)
+		e1.FS = ffs
+		ffs.Arm(k)
+		db1, err := e1.Open(cfg)
+		fired := ffs.Fired
+		ffs.Disarm()
+		if fired == "" {
+			if db1 != nil {
+				db1.Close()
+			}
+			break
+		}
+		c.Eval(1)
+		c.Stat("failed_open_faults", 1)
+		if err == nil {
+			// the fault was tolerated by Open: contents must be right
+			st, derr := core.Dump(db1, nil)
+			db1.Close()
+			if derr != nil || !st.Equal(ref) {
+				c.Violation("open-with-fault-contents", fmt.Sprintf("Open succeeded although its call #%d (%s) failed, but the contents are wrong: %v %s", k, fired, derr, st.Diff(ref, 3)), nil)
+				return
+			}
+			continue
+		}
+		c.Stat("opens_failed_by_fault", 1)
+		// the process ends; the next process opens what is on disk
+		e2 := core.CrashEnvFromImage(e1.Crash.Snapshot())
+		rec0 := core.Recoveries()
+		db2, err := e2.Open(cfg)
+		if err != nil {
+			c.Violation("open-after-failed-open", fmt.Sprintf("after an Open that failed at its call #%d (%s), the next Open fails too: %v", k, fired, err), map[string]interface{}{"failed_call": fired, "files": core.DescribeImage(e1.Crash.Snapshot())})
+			return
+		}
+		recovered := core.Recoveries() != rec0
+		st, derr := core.Dump(db2, nil)
+		db2.Close()
+		if !recovered {
+			c.Violation("unclean-not-recovered", fmt.Sprintf("the last session did not complete Close, an Open then failed at its call #%d (%s); the next successful Open ran no recovery", k, fired), map[string]interface{}{"failed_call": fired})
+			return
+		}
+		if derr != nil || !st.Equal(ref) {
+			c.Violation("chain-contents", fmt.Sprintf("after an Open that failed at its call #%d (%s) and a recovering Open, contents differ: %v %s", k, fired, derr, st.Diff(ref, 3)), map[string]interface{}{"failed_call": fired})
+			return
+		}
+		c.Distinct("failed-open", k, fired)
+	}
+}
+
 func runC13Chains(c *core.Ctx, sub int) {
 	kinds := []core.FSKind{core.FSOS, core.FSOSMMap, core.FSMem, core.FSCrash}
 	fsk := kinds[sub%4]
+	if fsk == core.FSCrash {
+		c13FailedOpens(c)
+		if c.Violations() > 0 {
+			return
+		}
+	}
 	half := sub / 4 // 0 or 1: which half of the 32 chains
 	cfg := core.Config{MaxSeg: 4096}
 	for chain := half * 16; chain < half*16+16; chain++ {
